@@ -16,7 +16,7 @@ import unicodedata
 
 from . import msgcheck, rfc4511
 
-MODES = ["swapcase", "lower", "upper", "tail", "head", "nfc", "nfd", "pad", "strip", "same", "prefix8"]
+MODES = ["swapcase", "lower", "upper", "tail", "head", "nfc", "nfd", "pad", "strip", "same", "prefix8", "unencodable"]
 
 
 def twin_leaf(v: t.Any, mode: str) -> t.Any:
@@ -41,6 +41,8 @@ def twin_leaf(v: t.Any, mode: str) -> t.Any:
             return v.strip()
         if mode == "prefix8":
             return v[:8] + v[8:][::-1] + "z"
+        if mode == "unencodable":
+            return v + "\udc80"  # no UTF-8 encoding exists: packing the twin fails part-way through
         return v
     if isinstance(v, bytes):
         if mode == "swapcase":
